@@ -27,44 +27,65 @@ type NetOpts struct {
 	// started: the link is down (Link.IsUp() false), a "fault" for C10.
 	BFD map[[2]int]bool
 	// SiblingBFD marks ASes whose sibling links get a (down) BFD session.
-	SiblingBFD      map[int]bool
+	SiblingBFD map[int]bool
+	// Without lists interfaces (AS index, ifid) that no router of the AS has configured.
+	Without         map[[2]int]bool
 	SiblingDetached bool
 	SCMPAuth        bool
 }
 
 func NewNet(c *Control, o NetOpts) *Net {
 	n := &Net{C: c, T: c.T}
-	for i, a := range c.T.ASes {
-		var rs []*router.VerifDP
-		for r := 0; r < a.Routers; r++ {
-			cfg := router.VerifConfig{IA: a.IA, Key: c.Keys[i], InternalAddr: c.T.RouterAddr(i, r),
-				PortStart: 1024, PortEnd: 65535, SCMPAuth: o.SCMPAuth,
-				SiblingDetached: o.SiblingDetached,
-				Svc: []router.VerifSvc{{SVC: addr.SvcCS,
-					Addr: netip.MustParseAddrPort(fmt.Sprintf("10.%d.0.100:30252", i+1))}}}
-			cfg.BFDConfig.DetectMult = 3
-			cfg.BFDConfig.DesiredMinTxInterval = 200e6
-			cfg.BFDConfig.RequiredMinRxInterval = 200e6
-			for _, e := range c.T.Ends(i) {
-				vi := router.VerifIface{IfID: e.If, LinkTo: e.LinkTo, Neighbor: c.T.ASes[e.PeerAS].IA,
-					Owned: e.Router == r, Local: e.Local, Remote: e.Remote}
-				if !vi.Owned {
-					vi.Remote = c.T.RouterAddr(i, e.Router)
-					vi.BFD = o.SiblingBFD[i]
-				} else {
-					vi.BFD = o.BFD[[2]int{i, int(e.If)}]
-				}
-				cfg.Ifaces = append(cfg.Ifaces, vi)
-			}
-			v, err := router.VerifNewDP(cfg)
-			if err != nil {
-				panic(fmt.Sprintf("router %s/%d: %v", a.Name, r, err))
-			}
-			rs = append(rs, v)
-		}
-		n.DP = append(n.DP, rs)
+	for i := range c.T.ASes {
+		n.DP = append(n.DP, buildAS(c, i, o))
 	}
 	return n
+}
+
+// WithAS returns a network that shares every router with n except those of AS `as`, which are
+// built anew with options o (a fault in one AS).
+func (n *Net) WithAS(as int, o NetOpts) *Net {
+	m := &Net{C: n.C, T: n.T, DP: append([][]*router.VerifDP(nil), n.DP...)}
+	m.DP[as] = buildAS(n.C, as, o)
+	return m
+}
+
+// WithControl returns a network with the same routers and another control plane (other beacons).
+func (n *Net) WithControl(c *Control) *Net { return &Net{C: c, T: n.T, DP: n.DP} }
+
+func buildAS(c *Control, i int, o NetOpts) []*router.VerifDP {
+	a := c.T.ASes[i]
+	var rs []*router.VerifDP
+	for r := 0; r < a.Routers; r++ {
+		cfg := router.VerifConfig{IA: a.IA, Key: c.Keys[i], InternalAddr: c.T.RouterAddr(i, r),
+			PortStart: 1024, PortEnd: 65535, SCMPAuth: o.SCMPAuth,
+			SiblingDetached: o.SiblingDetached,
+			Svc: []router.VerifSvc{{SVC: addr.SvcCS,
+				Addr: netip.MustParseAddrPort(fmt.Sprintf("10.%d.0.100:30252", i+1))}}}
+		cfg.BFDConfig.DetectMult = 3
+		cfg.BFDConfig.DesiredMinTxInterval = 200e6
+		cfg.BFDConfig.RequiredMinRxInterval = 200e6
+		for _, e := range c.T.Ends(i) {
+			if o.Without[[2]int{i, int(e.If)}] {
+				continue // the interface is not configured on any router of the AS
+			}
+			vi := router.VerifIface{IfID: e.If, LinkTo: e.LinkTo, Neighbor: c.T.ASes[e.PeerAS].IA,
+				Owned: e.Router == r, Local: e.Local, Remote: e.Remote}
+			if !vi.Owned {
+				vi.Remote = c.T.RouterAddr(i, e.Router)
+				vi.BFD = o.SiblingBFD[i]
+			} else {
+				vi.BFD = o.BFD[[2]int{i, int(e.If)}]
+			}
+			cfg.Ifaces = append(cfg.Ifaces, vi)
+		}
+		v, err := router.VerifNewDP(cfg)
+		if err != nil {
+			panic(fmt.Sprintf("router %s/%d: %v", a.Name, r, err))
+		}
+		rs = append(rs, v)
+	}
+	return rs
 }
 
 // Arrival is a packet arriving at a router.
@@ -186,7 +207,7 @@ func (n *Net) Step(a Arrival, j string) ([]map[string]any, Outcome) {
 			"scope": a.Scope, "inif": inif, "err": err != nil, "out": scopeName(r2.OutLink),
 			"dst": udpStr(r2.Dst), "len": len(rep), "egress": int(r2.Egress),
 			"built": err == nil && !bytes.Equal(rep[:min(len(rep), len(out))], out),
-			"m": ScmpProj(n.C, rep), "pkt": n.C.Proj(rep, "full"), "quoteok": quoteOK(rep, out)}
+			"m":     ScmpProj(n.C, rep), "pkt": n.C.Proj(rep, "full"), "quoteok": quoteOK(rep, out)}
 		evs = append(evs, se)
 		if err != nil || r2.OutLink == nil {
 			return evs, Outcome{Kind: "end", Disp: "slow"}
